@@ -196,6 +196,20 @@ Theorem C04_reads_change_nothing_tx : forall pol base p, nowrites p = true ->
 Proof. exact reads_change_nothing_tx. Qed.
 Print Assumptions C04_reads_change_nothing_tx.
 
+(* a dynamic script (System.Runtime.LoadScript) between the catching caller and the failing callee: the script runs with
+   caller & requested & ReadOnly and has no layer of its own — a frame with read-only effective flags.  Whatever happens in
+   or below it, and whoever catches, layers and notification list are exactly as before: ALL bodies, no guard *)
+Theorem C04_dyn_fault_or_catch_leaves_no_trace : forall pol f body cid fl it, pres (exec pol (Dyn f body) cid fl it).
+Proof. exact dyn_leaves_no_trace. Qed.
+Print Assumptions C04_dyn_fault_or_catch_leaves_no_trace.
+Theorem C04_dyn_mask_is_readonly : forall fl f, ro (N.land fl (N.land f fRO)) = true.
+Proof. exact ro_mask. Qed.
+Print Assumptions C04_dyn_mask_is_readonly.
+(* a mask that lets AllowNotify through is not read-only *)
+Theorem C04_dyn_loose_mask_refuted : exists fl f, ro (N.land fl (N.land f 13)) = false /\ has (N.land fl (N.land f 13)) fN = true.
+Proof. exact dyn_mask_refuted. Qed.
+Print Assumptions C04_dyn_loose_mask_refuted.
+
 (* non-vacuity *)
 Example C04_example_guarded_tree :
   guard Lazy ex1 = true /\ guard Eager ex1 = true /\ g2 ex1 = false /\
